@@ -267,21 +267,37 @@ def runPhi (hdr : List String) (body : List String) : List String :=
     go d0 body
   | _ => ["bad-mode"]
 
+/-- what the judge knows about the detector from the heartbeats alone: time of the last recorded
+    heartbeat, whether the interval window is non-empty, a bound on every interval ever recorded -/
+structure PhiJ where
+  last : Option Nat := none
+  haveIv : Bool := false
+  m : Nat := 0
+
+def PhiJ.hb (j : PhiJ) (ns : Nat) : PhiJ :=
+  match j.last with
+  | none => { j with last := some ns }
+  | some l =>
+    if l < ns then { last := some ns, haveIv := true, m := max j.m (ns - l) }
+    else { j with last := some ns }
+
 /-- phi samples between two heartbeats must be non-decreasing in time (samples arrive in
     increasing time order), `+∞` included: after `+∞` only `+∞`; `is_available` must equal
-    `phi < threshold`.  Values are compared as `PV`s obtained from the bit patterns (no floats). -/
+    `phi < threshold`; after a long enough silence following a recorded heartbeat the level must have
+    reached the threshold (`Spec.detectedSample`; judged when the header carries the bootstrap
+    interval, `min_std` and the window size).  Values are compared as `PV`s obtained from the bit
+    patterns (no floats). -/
 def judgePhi (hdr : List String) (body : List String) : List String :=
-  match hdr with
-  | [thr] =>
-    match Spec.pvOfBits (natD thr) with
+  let go5 (thrS : String) (clause5 : Bool) (initIv minStd maxN : Nat) : List String :=
+    match Spec.pvOfBits (natD thrS) with
     | none => ["viol phi/malformed-judge-header"]
     | some thr =>
-    let rec go (seg : List PV) (lastT : Nat) (i : Nat) : List String → List String
+    let rec go (seg : List PV) (lastT : Nat) (j : PhiJ) (i : Nat) : List String → List String
       | [] => if Spec.nondecreasing Spec.pvLe seg.reverse then ["ok"] else [s!"viol phi/decreased-without-heartbeat line {i}"]
       | l :: ls =>
         match toks l with
-        | "h" :: _ =>
-          if Spec.nondecreasing Spec.pvLe seg.reverse then go [] 0 (i + 1) ls
+        | "h" :: ns :: _ =>
+          if Spec.nondecreasing Spec.pvLe seg.reverse then go [] 0 (j.hb (natD ns)) (i + 1) ls
           else [s!"viol phi/decreased-without-heartbeat line {i}"]
         | ["q", ns, av, phibits] =>
           match Spec.pvOfBits (natD phibits) with
@@ -291,9 +307,16 @@ def judgePhi (hdr : List String) (body : List String) : List String :=
             else if (av == "1") != Spec.pvLt p thr then [s!"viol phi/available-inconsistent-with-threshold line {i}"]
             else if !(match seg with | [] => true | q :: _ => Spec.pvLe q p) then
               [s!"viol phi/decreased-without-heartbeat line {i}"]
-            else go (p :: seg) (natD ns) (i + 1) ls
-        | _ => go seg lastT (i + 1) ls
-    go [] 0 0 body
+            else if clause5 && !(match j.last with
+                | none => true
+                | some lh => Spec.detectedSample (j.haveIv && decide (1 ≤ maxN)) j.m minStd lh (natD ns) thr p) then
+              [s!"viol phi/silent-member-not-suspected line {i} t {ns} last-heartbeat {j.last.getD 0} bound {Spec.silenceBound j.m minStd}"]
+            else go (p :: seg) (natD ns) j (i + 1) ls
+        | _ => go seg lastT j (i + 1) ls
+    go [] 0 { haveIv := decide (0 < initIv), m := initIv } 0 body
+  match hdr with
+  | [thr] => go5 thr false 0 0 0
+  | [thr, initIv, minStd, maxN] => go5 thr true (natD initIv) (natD minStd) (natD maxN)
   | _ => ["viol phi/malformed-judge-header"]
 
 def handle (hdr : List String) (body : List String) : List String :=
